@@ -44,6 +44,7 @@ def run(tier):
     algebra.check_chain_rules(chk, F, tag="gen-chain")
     algebra.check_arith(chk, F, traits=("Mul", "Div"), neg=False, tag="gen-arith")
     sibling_agreement(chk, F)
+    vector_scalar_agreement(chk, F)
     nderiv(chk, F)
     recursion_items(chk, F)
     aliases(chk, F)
@@ -116,6 +117,81 @@ def sibling_agreement(chk, F):
                 chk.ob("%s|%s=%s" % (key0, fld, tgt), ok,
                        "%s.%s mapped through the grading homomorphism equals %s.%s (same derivative through both types)" % (src, fld, dst, tgt),
                        "%s vs %s" % (body_loc(F, s_body), body_loc(F, d_body)), found=got.show(), required=want.show())
+
+
+VEC_SCALAR = [("DualVec", "Dual"), ("Dual2Vec", "Dual2"), ("HyperDualVec", "HyperDual")]
+ASSIGN_TRAITS = ["AddAssign", "SubAssign", "MulAssign", "DivAssign"]
+
+
+def op_body(F, ty, trait):
+    """(body, in_place) of the dual-by-dual form of an operator trait"""
+    if trait in ASSIGN_TRAITS:
+        for imp in F.impls_of(trait, ty):
+            ta = imp.get("trait_args", [])
+            rhs_dual = len(ta) < 2 or (isinstance(ta[1], int) and F.adt_name(ta[1]) == ty)
+            if rhs_dual:
+                return F.impl_item(imp, {"AddAssign": "add_assign", "SubAssign": "sub_assign", "MulAssign": "mul_assign",
+                                         "DivAssign": "div_assign"}[trait]), True
+        return None, True
+    return refref_binop(F, ty, trait), False
+
+
+def eval_op(F, ty, body, in_place, pa, pb):
+    from ..interp import Ref
+    sp = Spec(ty, absent_set("a", pa) | absent_set("b", pb))
+    it = Interp(F, DOMK)
+    a, b = sp.operand("a", pa), sp.operand("b", pb)
+    if in_place:
+        cell = [a]
+        it.call_body(body, [Ref(cell, 0), b])
+        r = unref(cell[0])
+    else:
+        r = unref(it.call_body(body, [a, b]))
+    return {f: value_part_poly(r, f) for f, _ in sp.parts()}
+
+
+def vector_scalar_agreement(chk, F):
+    """vector types agree component-wise with the scalar types in every presence pattern (an absent part of the vector type is a
+    zero part of the scalar type), for the binary and the in-place forms of + - * /"""
+    def drop_idx(p):
+        def f(a):
+            if a[0] == "v" and a[2]:
+                return Poly.atom(("v", a[1], ()))
+            return None
+        return p.subst(f)
+    for vec, sca in VEC_SCALAR:
+        for trait in ["Add", "Sub", "Mul", "Div"] + ASSIGN_TRAITS:
+            vb, inplace = op_body(F, vec, trait)
+            sb, _ = op_body(F, sca, trait)
+            key0 = "vec-scalar|%s~%s|%s" % (vec, sca, trait)
+            if vb is None or sb is None:
+                chk.undecide(key0, "missing anchor: %s for %s / %s" % (trait, vec, sca))
+                continue
+            chk.count("vector/scalar operator pairs")
+            try:
+                sforms = eval_op(F, sca, sb, inplace, None, None)
+            except Unsupported as ex:
+                chk.undecide(key0, "unsupported: %s" % ex, body_loc(F, sb))
+                continue
+            pats = presence_patterns(vec)
+            for pa in pats:
+                for pb in pats:
+                    key = "%s|presence=%s%s" % (key0, pres_tag(pa), pres_tag(pb))
+                    try:
+                        vforms = eval_op(F, vec, vb, inplace, pa, pb)
+                    except Unsupported as ex:
+                        chk.undecide(key, "unsupported: %s" % ex, body_loc(F, vb))
+                        continue
+                    absent = absent_set("a", pa) | absent_set("b", pb)
+                    bad = []
+                    for f in vforms:
+                        want = sforms[f].subst(lambda a: Poly() if (a[0] == "v" and a[1] in absent) else None)
+                        got = drop_idx(vforms[f])
+                        if not equal(got, want):
+                            bad.append("%s: vector type computes %s, scalar type %s" % (f, got.show(), want.show()))
+                    chk.ob(key, not bad, "the vector type agrees component-wise with the scalar type (absent part = zero part)",
+                           "%s vs %s" % (body_loc(F, vb), body_loc(F, sb)), found="; ".join(bad[:2]) or "all parts agree",
+                           required="same canonical form")
 
 
 def nderiv(chk, F):
